@@ -104,7 +104,20 @@ def gen_kwargs(r, allow_prep):
 
 def gen_op(r):
     t = ["prep", "fit", "fit", "fit", "fit0", "fit0", "edit", "rate", "emod",
-         "bad", "pedit"][int(r.integers(11))]
+         "bad", "pedit", "nudge", "pattr"][int(r.integers(13))]
+    if t == "nudge":
+        # tiny change of one stored numeric setting, far below any
+        # "close enough" tolerance
+        return ("nudge", ["range_x0", "range_x1", "range_x01", "weight_cp",
+                          "gcf_k"][int(r.integers(5))],
+                float(r.choice([-1, 1]) * 10 ** r.uniform(-11, -8.1)),
+                bool(r.integers(2)))
+    if t == "pattr":
+        # change exactly one attribute of one stored initial parameter
+        return ("pattr", ["E", "contact_point", "baseline"][
+            int(r.integers(3))], ["value", "min", "max", "vary"][
+            int(r.integers(4))], float(10 ** r.uniform(-9, -1)),
+            bool(r.integers(2)))
     if t == "prep":
         return ("prep", copy.deepcopy(PIPES[int(r.integers(len(PIPES)))]),
                 copy.deepcopy(OPTS[int(r.integers(len(OPTS)))]))
@@ -158,6 +171,50 @@ def apply_op(idnt, op):
             idnt.rate_quality()
         elif op[0] == "emod":
             idnt.compute_emodulus_mindelta()
+        elif op[0] == "nudge":
+            fp = idnt.fit_properties
+            what, d, via_fit = op[1], op[2], op[3]
+            if what.startswith("range_x"):
+                rx = list(fp.get("range_x", [0, 0]))
+                if what in ("range_x0", "range_x01"):
+                    rx[0] = rx[0] + d
+                if what in ("range_x1", "range_x01"):
+                    rx[1] = rx[1] + d
+                key, val = "range_x", rx
+            elif what == "weight_cp":
+                key, val = "weight_cp", (fp.get("weight_cp", 1e-6) or 0) + \
+                    abs(d)
+            else:
+                key, val = "gcf_k", fp.get("gcf_k", 1.0) * (1 + d * 1e3)
+            if via_fit:
+                idnt.fit_model(**{key: val})
+            else:
+                fp[key] = val
+                idnt.fit_model()
+        elif op[0] == "pattr":
+            p = copy.deepcopy(idnt.get_initial_fit_parameters())
+            name, attr, mag, via_fit = op[1], op[2], op[3], op[4]
+            if name not in p:
+                name = "contact_point"
+            par = p[name]
+            ref = abs(par.value) if par.value else 1e-7
+            if attr == "value":
+                par.value = par.value + mag * ref * 1e-3
+            # bounds far away from any optimum: a parameter pinned to a
+            # bound makes lmfit's result irreproducible in the last digits
+            elif attr == "min":
+                par.set(min=par.value * 1e-8 * (1 + mag) if name == "E"
+                        else -abs(par.value) - 1e-3 * (1 + mag))
+            elif attr == "max":
+                par.set(max=par.value * 1e4 * (1 + mag) if name == "E"
+                        else abs(par.value) + 1e-3 * (1 + mag))
+            else:
+                par.vary = not par.vary
+            if via_fit:
+                idnt.fit_model(params_initial=p)
+            else:
+                idnt.fit_properties["params_initial"] = p
+                idnt.fit_model()
         elif op[0] == "pedit":
             p = idnt.get_initial_fit_parameters()
             name = op[1] if op[1] in p else "contact_point"
@@ -185,6 +242,19 @@ def snapshot(idnt):
     if "params_fitted" in fp:
         out["params_fitted"] = {k: (v.value, v.vary)
                                 for k, v in fp["params_fitted"].items()}
+        # a varied parameter that ends on (or next to) one of its bounds
+        # makes lmfit's result irreproducible even for identical inputs
+        pinned = False
+        pi = fp.get("params_initial")
+        for k, v in fp["params_fitted"].items():
+            if not v.vary or v.expr is not None:
+                continue
+            ref = max(abs(v.value), abs(pi[k].value) if pi is not None
+                      and k in pi else 0.0)
+            for bound in (v.min, v.max):
+                if np.isfinite(bound) and abs(v.value - bound) <= 1e-3 * ref:
+                    pinned = True
+        out["pinned"] = pinned
     for c in ["fit", "fit residuals", "fit range"]:
         if c in idnt:
             out[c] = np.array(idnt[c], copy=True)
@@ -192,6 +262,7 @@ def snapshot(idnt):
 
 
 APPROX = [0]
+PINNED = [0]
 RTOL = 1e-6
 
 
@@ -232,6 +303,11 @@ def same(a, b):
     if a is None:
         return None
     approx = False
+    if a.get("pinned") or b.get("pinned"):
+        if a.get("hash") != b.get("hash"):
+            return "hash"
+        PINNED[0] += 1
+        return None
     for k in a:
         if k not in b:
             return "missing:" + k
@@ -372,7 +448,11 @@ def run_history(rec, tap, rng, cid):
                           case)
             continue
         n_ap = APPROX[0]
+        n_pin = PINNED[0]
         d = same(after, o)
+        if PINNED[0] != n_pin:
+            rec.event("comparisons of fits pinned at a parameter bound "
+                      "(hash only; lmfit irreproducible there)")
         if APPROX[0] != n_ap:
             rec.event("comparisons equal to 1e-6 but not bitwise (library "
                       "non-determinism)")
